@@ -182,6 +182,40 @@ CLAIMS = {
        "returning, and no header is read after poison(frame). Does not decide exactly-once unmapping over histories.",
   note="Trusted: clang AST/CFG; poison rules are evaluated on the two poisoning witness policies only.",
   design_ref="DESIGN.md §3 C03, §2 E/Z"),
+ "C06": dict(
+  technique="static analysis: mirror-symmetry of case splits (canonical statement text / guarded-effect sets under left<->right renaming), per-path link write sets with null facts, comparator-side descent rule",
+  text="Decides structural clauses of C06 on the red-black tree: rotateLeft/rotateRight and insert_left/insert_right have "
+       "mirror-image guarded effects; every left/right case split inside fix_insert, fix_remove, replace_node, "
+       "remove_half_leaf and the rotations has mirror-image arms (a rebalancing defect in one of the dozens of mirrored "
+       "cases is an asymmetry); remove() nulls all five links of the removed node on each path; every child-link write is "
+       "paired with the child's parent write and every successor write with the predecessor write unless the partner is null "
+       "on that path; insert compares (new,current) and goes left on true, right otherwise; the order-tree insert places "
+       "before `before` or last; descents progress. Does not decide validity of the colouring, the height bound, or that the "
+       "in-order walk equals the contents; a defect symmetric in both mirrored arms is invisible to the mirror rule.",
+  note="Trusted: clang AST/CFG of tu/trees.cpp; assertions are dropped from mirrored text; asserted direction tests name else-arms.",
+  design_ref="DESIGN.md §3 C06, §2 M/H/E/R"),
+ "C07": dict(
+  technique="static analysis: exhaustive order-type enumeration of the extracted comparison expressions against their specification; syntactic decision structure; per-path re-aggregation after link writes",
+  text="Decides structural clauses of C07: the overlap test extracted from _for_overlaps_in_subtree equals lo<=ub && lb<=hi on "
+       "every weak ordering of its four operands (exhaustive); the left-pruning guard is sound on every order type (guard "
+       "false => nothing in the left subtree overlaps; guard true and no left hit => nothing to the right overlaps, given "
+       "lower-bound ordering); the callback runs only under the test, a hit searches both children, the right subtree is "
+       "searched after a left hit or when the guard fails, `true` is returned only after a callback/successful search; in the "
+       "red-black tree instantiated with the interval aggregator every child-link write is followed by re-aggregation of that "
+       "node (children before parents, rotation grand-parent exempt); the aggregator is left/right symmetric, starts from the "
+       "node's own upper bound, is seeded before linking; nodes are ordered by lower bound. Does not decide exactly-once "
+       "as a counting statement over a concrete tree.",
+  note="Trusted: clang AST of tu/trees.cpp; the enumeration evaluates expressions of the source (comparison trees), not the program.",
+  design_ref="DESIGN.md §3 C07, §2 Q/H/M/E"),
+ "C08": dict(
+  technique="static analysis: mirror symmetry of _merge under a<->b, per-path link write sets with null facts, dominance of detaching writes, accessor shapes",
+  text="Decides structural clauses of C08: _merge's arms are mirror images and compare(a,b) true makes b the winner; pop clears "
+       "the old root's child link; remove clears all three links of the removed element on every non-root path; every child/"
+       "sibling link write is paired with the backlink of the linked element unless it is null; _collapse detaches both pair "
+       "members before merging; empty()/top()/push-on-empty have the right shape; _collapse's loops advance. Does not decide "
+       "that top() is a maximum after any history (global heap-order invariant).",
+  note="Trusted: clang AST/CFG of tu/trees.cpp.",
+  design_ref="DESIGN.md §3 C08, §2 M/H/P/R"),
 }
 
 NOT_YET = "check not built yet in this revision (see DESIGN.md §7 order of work); not claimed until it exists"
